@@ -152,14 +152,28 @@ func (lv *LeafVariants) remainsToExist() bool {
 	}
 
 	// go through all variants
+	intentRemoved := false
+	runningOrDefaultRemains := false
 	for _, l := range lv.les {
-		// if an entry exists that does not have the delete flag set,
-		// then a remaining LeafVariant exists.
-		if !l.GetDeleteFlag() {
+		if l.Update.Owner() == RunningIntentName || l.Update.Owner() == DefaultsIntentName {
+			if !l.GetDeleteFlag() {
+				runningOrDefaultRemains = true
+			}
+			continue
+		}
+		// if an intent entry exists that does not have the delete flag set (or is only
+		// removed from intended), then a remaining LeafVariant exists.
+		if l.GetDeleteOnlyIntendedFlag() || !l.GetDeleteFlag() {
 			return true
 		}
+		intentRemoved = true
 	}
-	return false
+	// all intent entries are removed: the value is deleted from the device, its running
+	// value goes away with it (see shouldDelete) and must not count as remaining.
+	if intentRemoved {
+		return false
+	}
+	return runningOrDefaultRemains
 }
 
 func (lv *LeafVariants) GetHighestPrecedenceValue() int32 {
